@@ -56,10 +56,15 @@ package tools
 // Lemma (assumed; it follows from the contract of (*HashingReader).Read above
 // and from io.Copy calling nothing but Read and Write): copying from a
 // HashingReader into a file positioned at its end appends to the file exactly
-// the bytes the hasher absorbed.  lastcopy() names those bytes.
+// the bytes the hasher absorbed.  lastcopy() names those bytes.  Checked against
+// the body: what is copied is the caller's reader itself (or the progress wrapper
+// around exactly it) into the caller's writer - no limiting or transforming
+// reader in between.
 //@ func CopyWithCallback
 //@   assumed
-//@   props C02
+//@   props C02 C01 C08
+//@   at call io.Copy:1 assert arg0__ == writer && arg1__ == reader
+//@   at call io.Copy:2 assert arg0__ == writer && ptr_as(arg1__, "github.com/git-lfs/git-lfs/v3/tools.CallbackReader") == cbReader && cbReader.Reader == reader
 //@   modifies ghost lastcopy, ghost wbuf, ghost rrest, ghost fdata[fpath(copy_target(writer))]
 //@   ensures result1 == nil && dyntype(writer, "*os.File") && dyntype(reader, "*github.com/git-lfs/git-lfs/v3/tools.HashingReader") && old(rrest(writer)) == "" ==> fdata(fpath(ptr_as(writer, "os.File"))) == scat(old(fdata(fpath(ptr_as(writer, "os.File")))), lastcopy()) && wbuf(ptr_as(reader, "github.com/git-lfs/git-lfs/v3/tools.HashingReader").hasher) == scat(old(wbuf(ptr_as(reader, "github.com/git-lfs/git-lfs/v3/tools.HashingReader").hasher)), lastcopy())
 //@   ensures result1 == nil ==> rrest(writer) == ""
